@@ -7,7 +7,11 @@ import AbraModel.Drv.Util
                                            lit = both operands literal (optimizer fold)
    `f64 neg <x> <c>`                       unary minus; `c` = the host's `-0.0 - x`
    `f64 toint <a>`                         IntFromFloat
-   `f64 fromint <n>`                       FloatFromInt -/
+   `f64 fromint <n>`                       FloatFromInt
+   NOTE: `arith`, `chain`, `chainr`, `neg`, `atan2` and `math` (except floor/ceil/round) carry the host's IEEE result in
+   the request and the model hands it back: there the model only decides the zero-divisor error, the evaluation
+   order, fold = computation and the NaN rendering; the value comparison is the harness's Rust oracle.
+   `cmp`, `toint`, `fromint`, `math floor|ceil|round` and `viastring` are computed by the model alone. -/
 namespace Abra.Drv
 namespace F64D
 open Abra.F64
